@@ -32,6 +32,59 @@ var allKinds = []string{
 	"fwdsame-", "fwdsame+", "fwdnop-", "fwdnop+", "fwd2-", "fwd2+",
 }
 
+// Source shapes of a call site inside a GENERATED wrapper template (the
+// generator or parser may special-case them): the wrapper w<shape><callee>(m)
+// renders <div k=w<shape><callee> m> @callee(m.i) { SHAPE } </div>.
+type srcShape struct {
+	name    string
+	block   string // text of the block; "" = call without a block
+	after   string // text on the line after the call
+	callees []string
+}
+
+var srcShapes = []srcShape{
+	{"ws", "\n", "", []string{"slot", "twice", "ign"}},                                     // whitespace-only block
+	{"gc", "// nothing yet\n", "", []string{"slot", "twice", "ign"}},                       // Go line comment only
+	{"gb", "/* nothing yet */\n", "", []string{"slot", "twice", "ign"}},                    // Go block comment only
+	{"hc", "<!-- c -->\n", "", []string{"slot", "twice", "ign"}},                           // HTML comment only
+	{"ch", "{ children... }\n", "", []string{"slot", "twice", "ign"}},                      // exactly the wrapper's children
+	{"ch2", "{ children... }\n{ children... }\n", "", []string{"slot", "twice", "ign"}},    // twice
+	{"cht", "{ children... }\ntx\n", "", []string{"slot", "twice", "ign"}},                 // plus text
+	{"chif", "if m != \"\" {\n{ children... }\n}\n", "", []string{"slot", "twice", "ign"}}, // inside an if
+	{"nl", "", "{ children... }\n", []string{"slot", "twice"}},                             // block-less call, children on the next line
+	{"nlt", "", "{ \"tx\" }\n", []string{"slot", "twice"}},                                 // block-less call, expression on the next line
+}
+
+// wrapperBases: kind base (without +/-) -> shape, callee.
+var wrapperBases = map[string][2]string{}
+
+func init() {
+	for _, sh := range srcShapes {
+		for _, c := range sh.callees {
+			base := "w" + sh.name + c
+			wrapperBases[base] = [2]string{sh.name, c}
+			allKinds = append(allKinds, base+"-", base+"+")
+		}
+	}
+}
+
+func wrapperTemplates() string {
+	var sb strings.Builder
+	for _, sh := range srcShapes {
+		for _, c := range sh.callees {
+			base := "w" + sh.name + c
+			fmt.Fprintf(&sb, "templ %s(m string) {\n\t<div k=%q m={ m }>\n", base, base)
+			if sh.block != "" {
+				fmt.Fprintf(&sb, "\t\t@%s(m + \".i\") {\n%s\t\t}\n", c, sh.block)
+			} else {
+				fmt.Fprintf(&sb, "\t\t@%s(m + \".i\")\n%s", c, sh.after)
+			}
+			sb.WriteString("\t</div>\n}\n\n")
+		}
+	}
+	return sb.String()
+}
+
 // fwdKinds: forwarding wrappers (hand-written function components that read
 // their children and hand them on to a generated callee with
 // templ.WithChildren WITHOUT clearing ctx first).
@@ -55,6 +108,9 @@ var capturesBlock = map[string]bool{"fncap+": true, "fncap2+": true, "fndrop+": 
 
 func callExpr(kind, v string) string {
 	base := kind[:len(kind)-1]
+	if _, ok := wrapperBases[base]; ok {
+		return fmt.Sprintf("%s(%s.M)", base, v)
+	}
 	switch base {
 	case "slot", "ign", "twice", "pass", "inner", "after", "fnget", "fnign", "fncap", "fncap2", "fndrop", "capslot", "capchain",
 		"fwdslot", "fwdinner", "fwdafter", "fwdtwice", "fwdign", "fwdpass", "fwdsame", "fwdnop", "fwd2":
@@ -84,6 +140,9 @@ func body(level int, list, ind string, expand bool) string {
 		plus := strings.HasSuffix(k, "+")
 		if level == leafLevel && (plus || !level2Kinds[k]) {
 			continue
+		}
+		if _, isWrapper := wrapperBases[k[:len(k)-1]]; isWrapper && level > 0 {
+			continue // generated templates: through the dispatcher inside blocks
 		}
 		fmt.Fprintf(&sb, "%s\tcase %q:\n", ind, k)
 		in := ind + "\t\t"
@@ -166,7 +225,7 @@ templ capchain(m string) {
 	}
 }
 
-templ nodes(ts []T) {
+` + wrapperTemplates() + `templ nodes(ts []T) {
 ` + body(0, "ts", "\t", true) + `}
 `
 }
